@@ -389,6 +389,44 @@ fn run_layer(seed: u64, n: usize, out: &str) -> (i32, Vec<Value>) {
             }
         }
     }
+    // independence: the option under test given in neither layer, every OTHER option at each of its boundary values in
+    // either layer (min-round-duration above the default max-round-duration, first-ttl above the default max-ttl, ...).
+    // Such a configuration may be rejected as a whole; when it is accepted the effective value of the option under
+    // test is still its documented default.
+    for o in &all {
+        let key = o.name.split(':').next_back().unwrap_or(o.name);
+        let doc = if o.name.contains(':') { None } else { help.get(o.name).cloned() }
+            .or_else(|| sample.get(&(o.section.to_string(), key.to_string())).cloned());
+        let dflt = doc.as_ref().map_or_else(|| "?".to_string(), |d| canon(o.kind, d));
+        for b in &all {
+            let bkey = b.name.split(':').next_back().unwrap_or(b.name);
+            if b.name == o.name || o.excl.contains(&b.name) || b.excl.contains(&o.name) || !b.needs.is_empty() || o.needs.iter().any(|(k, _)| *k == b.name) {
+                continue;
+            }
+            for bv in edgy(bkey) {
+                for bl in [Layer::Cli, Layer::File] {
+                    let mut assign: Vec<(&Opt, &str, Layer)> = Vec::new();
+                    for (k, v) in o.needs {
+                        assign.push((find(&all, k), v, Layer::Cli));
+                    }
+                    assign.push((b, bv, bl));
+                    let (argv, toml_txt) = render(&assign);
+                    case += 1;
+                    match build(&argv, &toml_txt, 1) {
+                        Ok(cfg) => {
+                            let eff = canon(o.kind, &(o.get)(&cfg));
+                            writeln!(f, "{}", json!({"e":"layer","case":case,"opt":o.name,"cli":"-","file":"-","dflt":dflt,"eff":eff,"bg":assign.len(),
+                                "cross":b.name,"argv":argv,"toml":toml_txt})).unwrap();
+                            if n > 0 && case % 16 == 0 {
+                                stats.push(json!({"id":format!("cross-{seed}-{case}"),"cell":o.name,"shape":format!("x-{}", b.name),"delivered":{"genuine":1},"events":1}));
+                            }
+                        }
+                        Err(_) => {}
+                    }
+                }
+            }
+        }
+    }
     writeln!(f, "{}", json!({"e":"cend","cases":case})).unwrap();
     f.flush().unwrap();
     (0, stats)
